@@ -57,7 +57,7 @@ CONSTANTS MainIns,     \* subset of {"init", "sub"}: where the program lives
           Docs,        \* docstring shapes of defs and classes
           ModDocs,     \* docstring shapes of the main module
           Vals,        \* subset of {"lit","none"}
-          Imports,     \* subset of {"OK","og","ov","other","ext","cp"}
+          Imports,     \* subset of {"OK","og","ov","other","ext","cp","top"}   (top: `from other import TK`, absolute)
           Levels,      \* subset of 1..3: number of leading dots of the relative imports
           Chains,      \* subset of {"-","other.OK","pkg.other.OK"}: base classes written as dotted chains ("-" = a bare name)
           AsNames,     \* subset of Names \cup {"-"}   ("-" = no `as` clause)
@@ -75,7 +75,8 @@ NoneId == 1   LitId == 2   PkgId == 3   SubId == 4   MidId == 5   DeepId == 6   
 ExtId == 8    CpId == 9
 OtherId(d) == 9 + d     \* module other of the package at depth d (1: pkg, 2: pkg.mid, 3: pkg.mid.deep)
 OKId(d) == 12 + d       OgId(d) == 15 + d
-FirstFree == 19
+TopId == 19            \* class TK of the TOP-LEVEL module other.py that sits next to the package (same name as pkg/other.py)
+FirstFree == 20
 PkgPath(d) == SubSeq(<<"pkg", "mid", "deep">>, 1, d)
 PkgModId(d) == CASE d = 1 -> PkgId [] d = 2 -> MidId [] d = 3 -> DeepId
 
@@ -157,7 +158,7 @@ DynParams(ps) == [i \in 1..Len(ps) |-> PP(ps[i].name, KindMap(ps[i].kind), ~ps[i
 PyParams(ps) == [i \in 1..Len(ps) |-> PP(ps[i].name, ps[i].kind, ~ps[i].dflt /\ ~Variadic(ps[i].kind))]
 
 \* ---- import targets (the relative ones depend on where the main module is: see below) ----------
-FromName(w) == CASE w = "ext" -> "StringIO" [] w = "cp" -> "cached_property" [] OTHER -> w
+FromName(w) == CASE w = "ext" -> "StringIO" [] w = "cp" -> "cached_property" [] w = "top" -> "TK" [] OTHER -> w
 \* what the loaded package contains outside the main module (for final targets of aliases)
 OutsidePaths == {PkgPath(d) : d \in 1..3} \cup {PkgPath(d) \o <<"other">> : d \in 1..3}
                   \cup {PkgPath(d) \o <<"other", x>> : d \in 1..3, x \in {"OK", "og", "ov"}}
@@ -180,7 +181,7 @@ MainPkg == IF IsInit THEN MainPath ELSE Front(MainPath)        \* CPython: __pac
 \* CPython: `from <lvl dots>[other] import ...` starts at __package__ and climbs lvl - 1 packages
 RtDepth(lvl) == Len(MainPkg) - (lvl - 1)
 FromId(w, lvl) == CASE w = "OK" -> OKId(RtDepth(lvl)) [] w = "og" -> OgId(RtDepth(lvl)) [] w = "ov" -> LitId
-                    [] w = "other" -> OtherId(RtDepth(lvl)) [] w = "ext" -> ExtId [] w = "cp" -> CpId
+                    [] w = "other" -> OtherId(RtDepth(lvl)) [] w = "ext" -> ExtId [] w = "cp" -> CpId [] w = "top" -> TopId
 \* visitor: nodes.imports.relative_to_absolute - one level is discounted in a package / subpackage __init__, then
 \* the module's parents are climbed (stopping at the top), then node.module and the name are appended
 Climb(path, n) == SubSeq(path, 1, IF Len(path) - n < 1 THEN 1 ELSE Len(path) - n)
@@ -188,6 +189,7 @@ RelBase(lvl) == Climb(MainPath, IF IsInit THEN lvl - 1 ELSE lvl)
 FromTarget(w, lvl) ==
   CASE w = "other" -> RelBase(lvl) \o <<"other">>
     [] w = "ext" -> <<"io", "StringIO">>    [] w = "cp" -> <<"functools", "cached_property">>
+    [] w = "top" -> <<"other", "TK">>       \* absolute: the top-level module, whatever sits inside the package under that name
     [] OTHER -> RelBase(lvl) \o <<"other", w>>
 Scope == [i \in 1..Len(frames) |-> frames[i].name]      \* Visitor.current / Inspector.current as a relative path
 InClass == frames # <<>>
@@ -333,7 +335,8 @@ InitHeap(m, md) ==
        [] i \in {OgId(d) : d \in 1..3} ->
             Obj("function", "none", PkgPath(i - 15) \o <<"other">>, <<"og">>, <<>>, <<>>, <<PS("u", "positional or keyword", FALSE)>>, <<>>)
        [] i = ExtId -> Obj("class", "none", <<"_io">>, <<"StringIO">>, <<>>, <<>>, <<>>, <<>>)
-       [] i = CpId -> Obj("class", "none", <<"functools">>, <<"cached_property">>, <<>>, <<>>, <<>>, <<>>)]
+       [] i = CpId -> Obj("class", "none", <<"functools">>, <<"cached_property">>, <<>>, <<>>, <<>>, <<>>)
+       [] i = TopId -> Obj("class", "none", <<"other">>, <<"TK">>, <<>>, <<>>, <<>>, <<>>)]
 
 CurVars == IF InClass THEN Last(frames).vars ELSE heap[MainId].vars
 \* name lookup while a module / class body runs: the body's own namespace, then the module globals
@@ -446,7 +449,7 @@ StmtFrom ==
   /\ Budget /\ "from" \in Stmts
   /\ \E w \in Imports, as \in AsNames, lvl \in Levels :
        /\ lvl <= Len(MainPkg)                  \* executable: no relative import beyond the top-level package
-       /\ (w \in {"ext", "cp"}) => lvl = 1     \* absolute imports carry no dots (lvl is then unused)
+       /\ (w \in {"ext", "cp", "top"}) => lvl = 1     \* absolute imports carry no dots (lvl is then unused)
        /\ LET relative == w \in {"OK", "og", "ov", "other"}
               \* `from <package> import other`: CPython's _handle_fromlist takes an existing attribute `other` of the package
               \* module (e.g. a global the running __init__ bound before) and imports the submodule only when there is none
